@@ -66,6 +66,8 @@ static LU_stack_t stack;
 static int_t        no_expand;
 static int_t        ndim;
 static LU_space_t whichspace; /* 0 - system malloc'd; 1 - user provided */
+static int_t stack_tail_users; /* number of threads that hold work space at the
+				   tail of the user-supplied stack */
 
 /* Macros to manipulate stack */
 #define StackFull(x)         ( x + stack.used >= stack.size )
@@ -93,6 +95,7 @@ void pcgstrf_SetupSpace(void *work, int_t lwork)
         stack.top1 = 0;
         stack.top2 = lwork;
         stack.array = (void *) work;
+        stack_tail_users = 0;
     }
 #if ( MACH==PTHREAD )
     pthread_mutex_init ( &stack.lock, NULL);
@@ -386,6 +389,7 @@ pcgstrf_MemInit(int_t n, int_t annz, superlumt_options_t *superlumt_options,
 	    whichspace = USER;
 	    stack.size = lwork;
 	    stack.top2 = lwork;
+	    stack_tail_users = 0;
 	}
 	
 	lsub  = cexpanders[LSUB].mem  = Lstore->rowind;
@@ -484,6 +488,20 @@ pcgstrf_WorkInit(int_t n, int_t panel_size, int_t **iworkptr, complex **dworkptr
 	printf("malloc fails for local dworkptr[] ... dsize " IFMT "\n", dsize);
 	return (isize + dsize + n);
     }
+
+    if ( whichspace == USER ) {
+#if ( MACH==PTHREAD ) /* Use pthread ... */
+	pthread_mutex_lock( &stack.lock );
+#elif ( MACH==OPENMP ) /* Use openMP ... */
+#pragma omp critical ( STACK_LOCK )
+#endif
+	{
+	    ++stack_tail_users;
+	}
+#if ( MACH==PTHREAD ) /* Use pthread ... */
+	pthread_mutex_unlock( &stack.lock );
+#endif
+    }
 	
     return 0;
 }
@@ -521,8 +539,14 @@ void pcgstrf_WorkFree(int_t *iwork, complex *dwork, GlobalLU_t *Glu)
 #pragma omp critical ( STACK_LOCK )
 #endif
         {
-	    stack.used -= (stack.size - stack.top2);
-	    stack.top2 = stack.size;
+	    /* The work areas of all threads live at the tail of the stack.
+	       Release them only when the last thread is done: a thread that
+	       starts late must not be handed the area of one still running. */
+	    if ( --stack_tail_users <= 0 ) {
+		stack_tail_users = 0;
+		stack.used -= (stack.size - stack.top2);
+		stack.top2 = stack.size;
+	    }
 	    
 	    /*	pcgstrf_StackCompress(Glu);  */
         }
